@@ -146,76 +146,127 @@ def code_vectors():
     return out
 
 
+class _VecInfo(object):
+    def __init__(self, v):
+        self.v = v
+        self.p = v.get_param()
+        self.f = self.p.item_class
+        self.width = self.f.get_byte_num()
+        self.tab = code_table(self.f.get_enum_class())
+        self.known = sorted(self.tab)[0].to_bytes(self.width, 'big')
+        self.grease = GREASE1 if self.width == 1 else GREASE2
+        self.qn = classes.qualname(v)
+
+
+def _check_vector_code(acc, vi, doc, code, prefix, extra):
+    """One code of one list container, as only / first / second element: the C10 oracle (absolute, so it can be
+    evaluated after any history)."""
+    from cryptodatahub.common.exception import InvalidValue
+    from cryptoparser.tls.grease import TlsInvalidType
+    v, p, width, tab, known = vi.v, vi.p, vi.width, vi.tab, vi.known
+    cb = code.to_bytes(width, 'big')
+    for ctx_name, body in (('only', cb), ('first_of_two', cb + known), ('second_of_two', known + cb)):
+        if len(body) < p.min_byte_num or len(body) > p.max_byte_num:
+            continue
+        wire = len(body).to_bytes(p.item_num_size, 'big') + body
+        acc.counters['transitions'] = acc.counters.get('transitions', 0) + 1
+        w = dict({'kind': 'vector', 'vector': vi.qn, 'code': code, 'context': ctx_name}, **extra)
+        try:
+            obj = v.parse_exact_size(wire)
+        except InvalidValue:
+            if code in tab:
+                acc.violation('%s:%s:known_rejected' % (prefix, v.__name__), 'defined code %#x rejected inside its '
+                              'list' % code, w)
+            continue
+        except doc as e:
+            acc.violation('%s:%s:rejected:%s' % (prefix, v.__name__, type(e).__name__),
+                          'well-formed list with code %#x rejected with %s' % (code, type(e).__name__), w)
+            continue
+        except Exception as e:  # noqa
+            acc.violation('%s:%s:raises:%s' % (prefix, v.__name__, type(e).__name__), 'list with code %#x raises %s'
+                          % (code, type(e).__name__), w)
+            continue
+        items = list(obj)
+        nexp = len(body) // width
+        if len(items) != nexp:
+            acc.violation('%s:%s:item_dropped' % (prefix, v.__name__), 'list of %d codes parsed to %d items'
+                          % (nexp, len(items)), w)
+            continue
+        it = items[1] if ctx_name == 'second_of_two' else items[0]
+        if code in tab:
+            if it is not tab[code][0]:
+                acc.violation('%s:%s:wrong_member' % (prefix, v.__name__), 'code %#x decoded to %r' % (code, it), w)
+        else:
+            icode = getattr(it, 'code', None)
+            if isinstance(it, enum.Enum) or icode != code:
+                acc.violation('%s:%s:unknown_mapped' % (prefix, v.__name__), 'undefined code %#x became %r'
+                              % (code, it), w)
+            else:
+                is_grease = it.value.value_type == TlsInvalidType.GREASE
+                if is_grease != (code in vi.grease):
+                    acc.violation('%s:%s:grease_class' % (prefix, v.__name__), 'code %#x classified %s, RFC 8701 says '
+                                  '%s' % (code, it.value.value_type.name,
+                                          'GREASE' if code in vi.grease else 'not GREASE'), w)
+        try:
+            back = bytes(obj.compose())
+        except Exception as e:  # noqa
+            acc.violation('%s:%s:compose_raises:%s' % (prefix, v.__name__, type(e).__name__),
+                          'parsed list with code %#x cannot be composed: %s' % (code, type(e).__name__), w)
+            continue
+        if back != wire:
+            acc.violation('%s:%s:not_bit_exact' % (prefix, v.__name__), 'list with code %#x re-composes to different '
+                          'bytes (%s -> %s)' % (code, wire.hex(), back.hex()), w)
+
+
 def _vector_worker(args):
     vi, lo, hi = args
     acc = core.Acc()
-    from cryptodatahub.common.exception import InvalidValue
-    from cryptoparser.tls.grease import TlsInvalidType
-    v = code_vectors()[vi]
-    p = v.get_param()
-    f = p.item_class
-    width = f.get_byte_num()
-    tab = code_table(f.get_enum_class())
-    known = sorted(tab)[0].to_bytes(width, 'big')
-    grease = GREASE1 if width == 1 else GREASE2
-    qn = classes.qualname(v)
+    info = _VecInfo(code_vectors()[vi])
     doc = classes.documented_errors()
     for code in range(lo, hi):
-        cb = code.to_bytes(width, 'big')
-        for ctx_name, body in (('only', cb), ('first_of_two', cb + known), ('second_of_two', known + cb)):
-            if len(body) < p.min_byte_num or len(body) > p.max_byte_num:
-                continue
-            wire = len(body).to_bytes(p.item_num_size, 'big') + body
-            acc.counters['transitions'] = acc.counters.get('transitions', 0) + 1
-            w = {'kind': 'vector', 'vector': qn, 'code': code, 'context': ctx_name}
-            try:
-                obj = v.parse_exact_size(wire)
-            except InvalidValue:
-                if code in tab:
-                    acc.violation('vector:%s:known_rejected' % v.__name__, 'defined code %#x rejected inside its list'
-                                  % code, w)
-                continue
-            except doc as e:
-                acc.violation('vector:%s:rejected:%s' % (v.__name__, type(e).__name__),
-                              'well-formed list with code %#x rejected with %s' % (code, type(e).__name__), w)
-                continue
-            except Exception as e:  # noqa
-                acc.violation('vector:%s:raises:%s' % (v.__name__, type(e).__name__), 'list with code %#x raises %s'
-                              % (code, type(e).__name__), w)
-                continue
-            items = list(obj)
-            nexp = len(body) // width
-            if len(items) != nexp:
-                acc.violation('vector:%s:item_dropped' % v.__name__, 'list of %d codes parsed to %d items'
-                              % (nexp, len(items)), w)
-                continue
-            it = items[1] if ctx_name == 'second_of_two' else items[0]
-            if code in tab:
-                if it is not tab[code][0]:
-                    acc.violation('vector:%s:wrong_member' % v.__name__, 'code %#x decoded to %r' % (code, it), w)
-            else:
-                icode = getattr(it, 'code', None)
-                if isinstance(it, enum.Enum) or icode != code:
-                    acc.violation('vector:%s:unknown_mapped' % v.__name__, 'undefined code %#x became %r'
-                                  % (code, it), w)
-                else:
-                    is_grease = it.value.value_type == TlsInvalidType.GREASE
-                    if is_grease != (code in grease):
-                        acc.violation('vector:%s:grease_class' % v.__name__, 'code %#x classified %s, RFC 8701 says %s'
-                                      % (code, it.value.value_type.name, 'GREASE' if code in grease else 'not GREASE'),
-                                      w)
-            try:
-                back = bytes(obj.compose())
-            except Exception as e:  # noqa
-                acc.violation('vector:%s:compose_raises:%s' % (v.__name__, type(e).__name__),
-                              'parsed list with code %#x cannot be composed: %s' % (code, type(e).__name__), w)
-                continue
-            if back != wire:
-                acc.violation('vector:%s:not_bit_exact' % v.__name__, 'list with code %#x re-composes to different '
-                              'bytes' % code, w)
-    acc.state(core.h64('vector', qn, lo))
+        _check_vector_code(acc, info, doc, code, 'vector', {})
+    acc.state(core.h64('vector', info.qn, lo))
     if lo == 0:
-        acc.sample({'vector': qn, 'wire': (2 * width).to_bytes(p.item_num_size, 'big') + known + known}, 1)
+        acc.sample({'vector': info.qn, 'wire': (2 * info.width).to_bytes(info.p.item_num_size, 'big')
+                    + info.known + info.known}, 1)
+    return acc.result()
+
+
+# ---- two-step histories across code spaces -----------------------------------------------------------------
+def history_codes(a, b, thorough):
+    """Codes tried in the history (parse in A, then parse in B): every value that fits the narrower of the two
+    spaces' first octet range 0..255, every code defined in either table, every GREASE value; the whole 2^16
+    space for two-byte pairs in the thorough tier."""
+    lim = 256 ** min(a.width, b.width)
+    if thorough:
+        return range(lim)
+    vals = set(range(256)) | {c for c in a.tab if c < lim} | {c for c in b.tab if c < lim}
+    vals |= {c for c in (a.grease | b.grease) if c < lim}
+    return sorted(vals)
+
+
+def _history_worker(args):
+    """Runs in a freshly forked process (pmap(..., fresh=True)): no earlier parse of any code space has happened in
+    it beyond what the parent did before forking.  Step 1 parses code c (alone in its list) in space A, step 2
+    evaluates the complete C10 oracle for the numerically equal code in space B."""
+    ai, bi, thorough = args
+    acc = core.Acc()
+    vecs = code_vectors()
+    a, b = _VecInfo(vecs[ai]), _VecInfo(vecs[bi])
+    doc = classes.documented_errors()
+    for code in history_codes(a, b, thorough):
+        body = code.to_bytes(a.width, 'big')
+        if a.p.min_byte_num <= len(body) <= a.p.max_byte_num:
+            wire = len(body).to_bytes(a.p.item_num_size, 'big') + body
+            try:
+                obj = a.v.parse_exact_size(wire)
+                obj.compose()
+            except Exception:  # noqa  (judged by the single-space exploration)
+                pass
+        _check_vector_code(acc, b, doc, code, 'history', {'kind': 'history', 'after': a.qn})
+        acc.state(core.h64('history', a.qn, b.qn, code))
+    if ai == 0 and bi == 1:
+        acc.sample({'history': [a.qn, b.qn], 'codes': len(history_codes(a, b, thorough))}, 1)
     return acc.result()
 
 
@@ -456,6 +507,8 @@ def run(ctx):
         for lo in range(0, n, step):
             items.append((vi, lo, min(n, lo + step)))
     ctx.pmap(_vector_worker, items)
+    nv = len(code_vectors())
+    ctx.pmap(_history_worker, [(a, b, thorough) for a in range(nv) for b in range(nv) if a != b], fresh=True)
     ctx.pmap(_field_worker, [(i, thorough) for i in range(len(field_table()))])
     ctx.assumptions += [
         'cryptodatahub enumeration tables are data (trusted base); the no-alias clause is still evaluated on them',
@@ -464,6 +517,9 @@ def run(ctx):
         'boundary sample there); 3-byte space complete in the thorough tier',
     ]
     return ctx.finish(rule='all 2^8 / 2^16 codes of every factory alone and as only/first/second element of its list; '
+                           'every ordered pair of list containers as a two-step history in a fresh process (parse '
+                           'code c in A, then the full oracle for c in B; c over 0..255, both tables and GREASE - the '
+                           'whole common space in the thorough tier); '
                            '3-byte space (<=2 non-zero bytes quick, all 2^24 thorough); IntEnum-typed fields '
                            'substituted in place over their whole space; every member (and case spelling, prefix '
                            'pair) of every string-coded enumeration; static no-alias clause over every enumeration')
@@ -490,6 +546,13 @@ def replay(ctx, w):
             if classes.qualname(v) == w['vector']:
                 res = _vector_worker((vi, w['code'], w['code'] + 1))
                 return res[1][0] if res[1] else None
+    if k == 'history':
+        vecs = [classes.qualname(v) for v in code_vectors()]
+        res = _history_worker((vecs.index(w['after']), vecs.index(w['vector']), True))
+        for v in res[1]:
+            if v['witness'] == w:
+                return v
+        return None
     if k == 'field':
         for ti, row in enumerate(field_table()):
             if row[0] == w['field']:
